@@ -46,6 +46,14 @@ CLAIMS = {
         "text": "Decides: PingTracker state is written only by its four methods; pong_received changes state only under (ping outstanding && payload equal), clears it and measures RTT from that ping; new_ping_with_timeout overwrites unconditionally and returns the stored random payload; timeout sleeps on the outstanding ping's own deadline and pends otherwise. The 3x-RTT clamp and timing are not decided.",
         "technique": "who-writes inventory + success-edge dominance on field tests + copy-chain provenance",
     },
+    "C15": {
+        "text": "Decides one clause structurally: inside the dial loop Err is returned only when the resolver stream is finished AND the address queue is empty AND no attempt is in flight; `finished` is set only on the stream's None item; every resolved address is queued and the queue is only consumed by pop_family; the first Ok attempt is returned as is. Family preference/alternation and delays are schedule/time and not decided.",
+        "technique": "success-edge dominance on MIR incl. select!-arm payload tests, copy-chain provenance",
+    },
+    "C43": {
+        "text": "Static lockset nested-acquire rule over every RelayMap method: a second acquisition of the map's RwLock through a possibly aliasing RelayMap value while a guard is held (one side exclusive) is reported unless excluded by Arc::ptr_eq. Map semantics as values are not decided.",
+        "technique": "static lockset (guard lifetimes on MIR) + alias argument from the impl/ADT tables (Clone over Arc)",
+    },
 }
 
 _PENDING = "rules for this property are not implemented yet in this revision (see DESIGN.md §4 for the planned structural clauses)"
